@@ -62,6 +62,23 @@ def run(tier):
             if f["c"].startswith("C12."):
                 check.violation({"class": f["c"], "kind": f.get("kind") or f.get("want"), "parent": f.get("parent"), "role": f.get("role")},
                                 {"src": p["src"], "ver": p["ver"], "fail": f})
+    # every operator nested in itself in every operand position (SyntaxGen self-nesting mode, exhaustive): a traverser method that
+    # keeps state across its own recursion shows here
+    for family in ("7", "5"):
+        tab, bs, ops = progmod.nesting_operator_programs(check, family, core.seed(), 4 if tier == "quick" else 5)
+        ex = progmod.expand_all(tab, bs, core.seed(), ["none"])
+        srcs = [e["variants"][0]["src"] for e in ex if not e.get("skip")]
+        ver = progmod.VERS[family][0]
+        for src, r in zip(srcs, wp.run([{"op": "analyze", "src": s_, "ver": ver} for s_ in srcs])):
+            check.count()
+            if r.get("panic") or r.get("hang") or r.get("crash") or not r.get("root"):
+                continue
+            nparsed += 1
+            for f in r.get("fails") or []:
+                if f["c"].startswith("C12."):
+                    check.violation({"class": f["c"], "kind": f.get("kind") or f.get("want"), "parent": f.get("parent"), "role": f.get("role")},
+                                    {"src": src, "ver": ver, "fail": f})
+        check.cov["operator_nestings_%s" % family] = len(srcs)
     # pairs of statements: the tree of "A B" consists of the trees of A and of B, and shares no node (parser actions that leave
     # something behind for a later production)
     for family in ("7", "5"):
